@@ -499,6 +499,11 @@ func (st *AclState) applyOwnershipChange(ch *aclrecordproto.AclOwnershipChange, 
 		oldOwnerKey = mapKeyFromPubKey(record.Identity)
 		newOwnerKey = mapKeyFromPubKey(newOwnerIdentity)
 	)
+	if _, exists := st.accountStates[newOwnerKey]; !exists {
+		// reachable only when content validation is off (non-validating verifier); updating
+		// an unknown account would store an entry without a public key
+		return ErrNoSuchAccount
+	}
 	st.updatePermissions(oldOwnerKey, ch.OldOwnerPermissions, record)
 	st.updatePermissions(newOwnerKey, aclrecordproto.AclUserPermissions_Owner, record)
 	return nil
@@ -540,6 +545,11 @@ func (st *AclState) applyPermissionChange(ch *aclrecordproto.AclAccountPermissio
 		return err
 	}
 	stringKey := mapKeyFromPubKey(chIdentity)
+	if _, exists := st.accountStates[stringKey]; !exists {
+		// reachable only when content validation is off (non-validating verifier); updating
+		// an unknown account would store an entry without a public key
+		return ErrNoSuchAccount
+	}
 	st.updatePermissions(stringKey, ch.Permissions, record)
 	return nil
 }
